@@ -209,7 +209,28 @@ def judge(prog):
             msg = RELS[i][1](off, on, bits[3])
             if msg:
                 v.append((f"option-leak:{RELS[i][0]}", f"flipping {OPTS[i]} with the other options {dict(zip(OPTS, bits))}: {msg}", {"bits": list(bits), "flip": i}))
-    return v, 32
+    # two non-default sizes give the same text up to the number: the size value, above or below the built-in 32, decides
+    # nothing but the number written in the declarations (checked with the other four options all off and all on)
+    n = 32
+    for rest in ((False,) * 4, (True,) * 4):
+        big = outs[rest + (True,)]
+        o = mk(rest + (True,))
+        o["default_str_storage"] = 16
+        small = tool.convert(text, **o)
+        n += 1
+        if small.kind != big.kind:
+            v.append(("acceptance-depends-on-options", f"size 80: {big.kind}, size 16: {small.kind}", None))
+        elif big.ok and "[16]" not in big.text:
+            # line by line: equal, or equal once the requested number is swapped (the library has fixed sizes of its own)
+            x, y = big.text.split("\n"), small.text.split("\n")
+            k = next((j for j in range(min(len(x), len(y))) if x[j] != y[j] and x[j].replace("[80]", "[16]") != y[j]), None)
+            if k is None and len(x) != len(y):
+                k = min(len(x), len(y))
+            if k is None:
+                continue
+            v.append(("option-leak:string-size", f"sizes 80 and 16 with the other options {rest} give texts that differ in more than the number, at line {k}: {x[k:k+1]} vs {y[k:k+1]}",
+                      {"bits": list(rest) + [True], "flip": 4, "sizes": [80, 16]}))
+    return v, n
 
 
 def work(chunk):
